@@ -18,9 +18,9 @@ MANIFEST = dict(
     technique="TLA+ spec + TLC exhaustive model checking incl. liveness; edge-complete graph replay into the "
               "implementation through a gated interpreter in virtual time",
     design="5/C09")
-INVS = ["TypeOK", "CbAtMostOnce", "CbAfterSubtree", "CbSeesCompleted", "ExitNeverFails", "CompletionIffSubtreeLeft"]
+INVS = ["TypeOK", "CbAtMostOnce", "CbAfterSubtree", "CbAfterMembers", "CbSeesCompleted", "ExitNeverFails", "CompletionIffSubtreeLeft"]
 PROPS = ["CompletedStable"]
-INTERNAL = ["RunCb"]
+INTERNAL = ["RunCb", "Finish"]
 
 
 def run(rep, work, tier, seed):
@@ -33,11 +33,13 @@ def run(rep, work, tier, seed):
     rep.extra["constants"] = dict(model=mc, conformance=conf)
     leg_m(rep, work, SPEC, f"mc_{tier}",
           cfg_text(mc, spec="Spec", invariants=INVS, properties=PROPS + ["EventuallyCalled"]),
-          expect_actions=["Open", "Close", "RunCb", "Start", "End", "Tick", "Drain"], timeout=3000)
+          expect_actions=["Open", "Close", "Finish", "RunCb", "Start", "End", "Tick", "Drain"], timeout=3000)
     if tier == "thorough":
         small = dict(NTasks=2, N=3, MaxOps=6, MaxRec=0, MaxT=1, MTypes=["Cat"], Kinds=["s", "a"])
         leg_mutant(rep, work, SPEC, "mutant_late_child", cfg_text(dict(small, Bug="late_child"), invariants=INVS),
                    ["CbAfterSubtree", "ExitNeverFails", "CbAtMostOnce", "CompletionIffSubtreeLeft"])
+        leg_mutant(rep, work, SPEC, "mutant_metrics_before_group",
+                   cfg_text(dict(small, Bug="metrics_before_group"), invariants=INVS), ["CbAfterMembers"])
         leg_mutant(rep, work, SPEC, "mutant_no_parent_notify",
                    cfg_text(dict(small, Bug="no_parent_notify"), invariants=INVS), ["CompletionIffSubtreeLeft"])
     leg_r(rep, work, SPEC, f"conf_{tier}", cfg_text(conf, invariants=INVS), lambda: MetricsDriver(["Cat"]),
